@@ -18,7 +18,12 @@ FN = "KernelDG.check_for_loopcarried_dep"
 
 CEIL_FORMS = ["int((M_n - 1) / M_c) + 1", "(M_n - 1) // M_c + 1", "(M_n + M_c - 1) // M_c", "-(-M_n // M_c)",
               "math.ceil(M_n / M_c)", "ceil(M_n / M_c)", "int(math.ceil(M_n / M_c))", "1 + (M_n - 1) // M_c",
-              "1 + int((M_n - 1) / M_c)"]
+              "1 + int((M_n - 1) / M_c)",
+              # quotient plus one when there is a remainder
+              "M_n // M_c + (1 if M_n % M_c else 0)", "M_n // M_c + (1 if M_n % M_c != 0 else 0)", "M_n // M_c + (1 if M_n % M_c > 0 else 0)",
+              "M_n // M_c + (0 if M_n % M_c == 0 else 1)", "M_n // M_c + bool(M_n % M_c)", "M_n // M_c + (M_n % M_c > 0)",
+              "M_n // M_c + (M_n % M_c != 0)", "M_n // M_c + int(M_n % M_c > 0)", "M_n // M_c + int(M_n % M_c != 0)",
+              "M_n // M_c + int(bool(M_n % M_c))", "(1 if M_n % M_c else 0) + M_n // M_c"]
 FLOOR_FORMS = ["M_n // M_c", "int(M_n / M_c)", "math.floor(M_n / M_c)", "int(M_n // M_c)", "round(M_n / M_c)"]
 
 
